@@ -16,4 +16,10 @@
 #define pthread_cond_broadcast ms_cond_broadcast
 #define pthread_cond_signal ms_cond_signal
 #define sched_setaffinity ms_setaffinity
+#ifdef MS_MEM   /* memory-access variant: allocators renamed so that recycled blocks start with an empty access history */
+#define malloc ms_malloc
+#define realloc ms_realloc
+#define free ms_free
+#define cholmod_l_allocate_dense ms_cholmod_allocate_dense
+#endif
 #endif
